@@ -114,17 +114,35 @@ pub fn run(ctx: &Ctx) -> ! {
     cfg2.max_arg_maps = ctx.tier.pick(4, 7);
     let s2 = if ctx.elapsed() < ctx.budget_s() { Some(corpus::drive(ctx, &uni, &cfg2, &|_| {}, &per_case, &|_, _| {})) } else { None };
 
+    // (3) operand-type space: every operator x every property type (Int!, Int, String, [Int], [String],
+    //     Float, Boolean) with a variable, and every tagged property x filtered property x operator with a
+    //     tag, on the skeletons and on one-edge structures; the frontend's typing rules decide acceptance.
+    let cfg_e1 = qgen::GenCfg { allow: Some(vec!["E"]), e_names: Some(vec!["next", "one"]), e_contents: vec![0], recurse_depths: vec![2], naming_devs: false, ..Default::default() };
+    let mut seeds3: Vec<qast::Query> = vec![qgen::skeleton()];
+    seeds3.extend(qgen::enumerate(sm, &[qgen::skeleton()], 1, &cfg_e1).into_iter().skip(1).flatten());
+    let mut cfg3 = CorpusCfg::new(1);
+    cfg3.seeds = seeds3;
+    cfg3.gen = qgen::GenCfg { allow: Some(vec!["Pf", "Pt"]), full_menus: true, naming_devs: false, ..Default::default() };
+    cfg3.wide_args = true;
+    cfg3.args_cap_per_var = 7;
+    cfg3.max_arg_maps = 7;
+    cfg3.ir_var_types_fallback = true;
+    let mut uni3 = Universe::sverif();
+    uni3.datasets.retain(|d| matches!(d.name.as_str(), "diamond" | "fan3" | "extremes"));
+    let s3 = if ctx.elapsed() < ctx.budget_s() { Some(corpus::drive(ctx, &uni3, &cfg3, &|_| {}, &per_case, &|t, p| { if std::env::var("VERIF_DEBUG").is_ok() { eprintln!("FRONTEND PANIC {} :: {}", p.key(), t.replace('\n', " ")); } })) } else { None };
+
     let mut c = cov();
+    c.insert("corpus_operand_types".into(), s3.as_ref().map(|s| s.to_json()).unwrap_or(json!("skipped: time budget used by the earlier corpora")));
     c.insert("evaluations".into(), json!(counters.runs.load(Ordering::Relaxed)));
     c.insert("distinct_nontrivial".into(), json!(distinct.lock().unwrap().len()));
-    c.insert("rule".into(), json!("every (query, dataset, arguments) case of two enumerated spaces (k<=2 / k<=3 general space with the widened operator menu; two-edge structures + filter/tag/count deviations), with wide argument domains (negative, zero, i64::MIN, u64::MAX, empty / null-containing lists, invalid regex text), run under catch_unwind with three adapters (plain lazy, always-pre-fetch-all batcher, hint pruner); evaluations = executions; non-trivial = distinct (query, arguments) pairs whose query has a filter, fold, optional or recursion"));
+    c.insert("rule".into(), json!("every (query, dataset, arguments) case of two enumerated spaces (k<=2 / k<=3 general space with the widened operator menu; two-edge structures + filter/tag/count deviations; the operand-type space: every operator x every property type with a variable and every tagged x filtered property x operator with a tag, as far as the frontend accepts), with wide argument domains (negative, zero, i64::MIN, u64::MAX, empty / null-containing lists, invalid regex text), run under catch_unwind with three adapters (plain lazy, always-pre-fetch-all batcher, hint pruner); evaluations = executions; non-trivial = distinct (query, arguments) pairs whose query has a filter, fold, optional or recursion"));
     c.insert("cases".into(), json!(counters.cases.load(Ordering::Relaxed)));
     c.insert("cases_rejected_by_argument_validation".into(), json!(counters.arg_rejected.load(Ordering::Relaxed)));
     c.insert("rows_produced".into(), json!(counters.rows.load(Ordering::Relaxed)));
     c.insert("corpus_general".into(), s1.to_json());
     c.insert("corpus_structures".into(), s2.as_ref().map(|s| s.to_json()).unwrap_or(json!("skipped: time budget used by the first corpus")));
     c.insert("samples".into(), json!(samples.lock().unwrap().items));
-    let capped = s1.capped || s2.as_ref().map(|s| s.capped).unwrap_or(true);
+    let capped = s1.capped || s2.as_ref().map(|s| s.capped).unwrap_or(true) || s3.as_ref().map(|s| s.capped).unwrap_or(true);
     c.insert("exhaustive".into(), json!(!capped));
     ctx.finish(
         "exploration",
